@@ -31,12 +31,12 @@ from vlib import cbool, cz
 decimal.getcontext().prec = 80
 
 AREA = "Codec"
-THEOREMS = [("Arc.Codec.Props", n) for n in (
-    "C19_json_string_roundtrip", "C19_json_string_utf8_guarded", "C19_json_string_utf8_exact",
-    "C19_json_binary_utf8_refuted", "C19_json_column_names", "C19_json_int_roundtrip",
+THEOREMS = [("Arc.Codec.Obligations", "C19_deployed_blob_json")] + [("Arc.Codec.Props", n) for n in (
+    "C19_json_blob_text_form", "C19_json_string_roundtrip", "C19_json_string_utf8_guarded", "C19_json_string_utf8_exact",
+    "C19_json_column_names", "C19_json_int_roundtrip",
     "C19_json_float_null_rule", "C19_nonfinite_is_ieee", "C19_msgpack_int_roundtrip", "C19_ts_units",
-    "C19_date32", "C19_msgpack_str_bin_roundtrip", "C19_limit_prefix", "C19_type_name_determines_wire",
-    "C19_type_name_decodes", "C19_json_blob_text_form")] + [("Arc.Codec.Obligations", "C19_deployed_blob_json")]
+    "C19_date32", "C19_msgpack_str_bin_roundtrip", "C19_limit_prefix", "C19_type_name_decodes", "C19_type_name_determines_wire",
+    "C19_json_binary_utf8_refuted")]      # last: the statement about the OLD raw BLOB encoder (fixed in 48e92ae)
 MODULES = ["Arc.Codec.Props", "Arc.Codec.Obligations"]
 TIE_NAME = ("C19 correspondence (api.writeJSONString/writeArrowValue/streamArrowJSON/encodeColumn/"
             "drainArrowBatches/streamMsgPackFromBatches/arrowTypeName vs Arc.Codec.Model)")
@@ -1290,6 +1290,10 @@ def run(res, tier, seed):
         res.stage("translate_params", t0)
     res.cov["params"] = {"json_blob_duck_text": duck}
     failed = vlib.std_proof_stage(res, "C19", AREA, MODULES, THEOREMS, extra_targets=["theories/Codec/Obligations.vo"])
+    if tier == "thorough":
+        ok, _ = vlib.coqchk_stage(res, MODULES)
+        if not ok:
+            failed.append(("coqchk", "coqchk rejected the compiled Codec modules or reported inadmissible axioms"))
     res.cov["trusted_base"] += [
         "ORACLES (inputs of the model): strconv.AppendFloat text of finite floats and time.AppendFormat RFC3339Nano text (both re-derived "
         "independently in tools/props/C19.py and compared on every case), Arrow ValueStr text of types without a native encoder, "
@@ -1375,6 +1379,8 @@ def run(res, tier, seed):
         if not probs:
             expl["statements_all_formats_agree"] += 1
         for fmt, sig, msg in probs:
+            if sig in (SIG_BLOB, SIG_HUGE, SIG_UHUGE) and sig not in known:
+                sig = None                      # a finding that is not (or no longer) listed as open
             if sig is None:
                 expl["unexplained"].append({"sql": c["sql"][:2000], "format": fmt, "problem": msg[:300]})
             else:
